@@ -150,7 +150,11 @@ type relCase struct {
 
 func genRel(t *rapid.T) relCase {
 	var c relCase
-	c.Rows, c.Tier = refdist.GenRows(t, 3, 10, 40, -1)
+	if rapid.IntRange(0, 11).Draw(t, "many-sequences") == 7 {
+		c.Rows, c.Tier = refdist.GenRows(t, 46, 80, 12, -1) // more than 1024 pairs
+	} else {
+		c.Rows, c.Tier = refdist.GenRows(t, 3, 10, 40, -1)
+	}
 	c.Opt = refdist.GenOptions(t, len(c.Rows), len(c.Rows[0]), false, true)
 	c.ColPerm = gen.Perm(t, len(c.Rows[0]), "colperm")
 	c.RowPerm = gen.Perm(t, len(c.Rows), "rowperm")
@@ -225,6 +229,9 @@ func checkRel(c relCase) (o pbt.Outcome, err error) {
 	}
 	if refdist.HasLower(c.Rows) {
 		o.Class("lower-case residues")
+	}
+	if len(c.Rows) >= 46 {
+		o.Class("46-80 sequences (> 1024 pairs)")
 	}
 
 	// transformed alignment: rows built directly, or through the goalign API
@@ -370,11 +377,14 @@ type thrCase struct {
 
 func genThr(t *rapid.T) thrCase {
 	var c thrCase
-	maxRows := 12
-	if rapid.IntRange(0, 3).Draw(t, "fanout") == 0 {
-		maxRows = 40
+	switch rapid.IntRange(0, 11).Draw(t, "fanout") { // (rapid prefers small values: the rare class is not value 0)
+	case 7: // more than 1024 pairs, short alignments
+		c.Rows, c.Tier = refdist.GenRows(t, 46, 80, 12, -1)
+	case 0, 1, 2:
+		c.Rows, c.Tier = refdist.GenRows(t, 3, 40, 40, -1)
+	default:
+		c.Rows, c.Tier = refdist.GenRows(t, 3, 12, 40, -1)
 	}
-	c.Rows, c.Tier = refdist.GenRows(t, 3, maxRows, 40, -1)
 	c.Opt = refdist.GenOptions(t, len(c.Rows), len(c.Rows[0]), true, true)
 	c.Shared = rapid.Bool().Draw(t, "shared-model")
 	return c
@@ -407,6 +417,13 @@ func checkThr(c thrCase) (o pbt.Outcome, err error) {
 	if ok, why := bitwiseEqual(first, m); !ok {
 		return o, fmt.Errorf("two runs with 8 threads differ: %s", why)
 	}
+	// and the matrix is the one of the estimators, entry by entry (oracle of C07)
+	v, _, err := refdist.JudgeAny(first, c.Rows, c.Opt, refdist.Readings(c.Rows, c.Opt), refdist.JudgeOpt{Tol: refdist.LibTol})
+	if err != nil {
+		return o, err
+	}
+	o.Ill += v.Ill
+	o.Ambiguous += v.Ambiguous
 	n := len(c.Rows)
 	pairs := 0
 	for i := 0; i < n; i++ {
@@ -427,6 +444,8 @@ func checkThr(c thrCase) (o pbt.Outcome, err error) {
 	o.NonTrivial = pairs >= 3 && hasFiniteNonZero(first)
 	o.Class("model=%s", c.Opt.Model)
 	switch {
+	case n >= 46:
+		o.Class("46-80 sequences (> 1024 pairs)")
 	case n > 20:
 		o.Class("rows>20")
 	case n > 8:
@@ -688,7 +707,11 @@ type raceCase struct {
 func TestRace(t *testing.T) {
 	pbt.Run(t, func(t *rapid.T) raceCase {
 		var c raceCase
-		c.Thr.Rows, c.Thr.Tier = refdist.GenRows(t, 3, 14, 20, -1)
+		if rapid.IntRange(0, 5).Draw(t, "many-sequences") == 3 {
+			c.Thr.Rows, c.Thr.Tier = refdist.GenRows(t, 46, 80, 12, -1) // more than 1024 pairs
+		} else {
+			c.Thr.Rows, c.Thr.Tier = refdist.GenRows(t, 3, 14, 20, -1)
+		}
 		c.Thr.Opt = refdist.GenOptions(t, len(c.Thr.Rows), len(c.Thr.Rows[0]), true, true)
 		c.Thr.Shared = rapid.Bool().Draw(t, "shared-model")
 		c.Fault = genFault(t)
